@@ -158,8 +158,15 @@ def check_case(ctx, fmt, variant, drv_lines, expectations):
     try:
         with warnings.catch_warnings(record=True) as wl:
             warnings.simplefilter("always")
-            reader = R(tle_dir="/nonexistent", tle_name="x")
+            # half of the files are read with a reader instance that has already read other files of the same
+            # format (batch use): the layout and the data offset must not depend on what was read before
+            pool = ctx.__dict__.setdefault("_c01_readers", {})
+            reused = fmt in pool and ctx.rng.random() < 0.5
+            reader = pool[fmt] if reused else R(tle_dir="/nonexistent", tle_name="x")
+            variant = dict(variant, reader="reused" if reused else "fresh")
             reader.read(path)
+            pool[fmt] = reader
+            ctx.branches["reader/%s" % variant["reader"]] += 1
             count_warn = any("Unexpected number of scanlines" in str(w.message) for w in wl)
     except Exception as e:
         problems.append(("read() raised %s: %s" % (type(e).__name__, e), None))
